@@ -412,6 +412,12 @@ def _set_allocations_for_consumer(req, schema):
             }
         allocation_data = allocations_dict
 
+    # If the body includes an allocation for a resource provider
+    # that does not exist, raise a 400. Do so before the consumer is ensured
+    # below, so that a rejected request does not leave an auto-created
+    # consumer behind.
+    rp_objs = _resource_providers_by_uuid(context, allocation_data.keys())
+
     allocation_objects = []
     # Consumer object saved in case we need to delete the auto-created consumer
     # record
@@ -439,10 +445,6 @@ def _set_allocations_for_consumer(req, schema):
             allocation.used = 0
             allocation_objects.append(allocation)
     else:
-        # If the body includes an allocation for a resource provider
-        # that does not exist, raise a 400.
-        rp_objs = _resource_providers_by_uuid(context, allocation_data.keys())
-
         for resource_provider_uuid, allocation in allocation_data.items():
             resource_provider = rp_objs[resource_provider_uuid]
             new_allocations = _new_allocations(context,
@@ -559,7 +561,13 @@ def set_allocations(req):
     # alloc_obj.replace_all() call, which will mean all the changes happen
     # within a single transaction and with resource provider and consumer
     # generations (if applicable) check all in one go.
-    allocations = create_allocation_list(context, data, consumers)
+    try:
+        allocations = create_allocation_list(context, data, consumers)
+    except Exception:
+        # Do not leave the consumers we auto-created behind when the request
+        # is rejected before we even try to write the allocations.
+        with excutils.save_and_reraise_exception():
+            delete_consumers(new_consumers_created)
 
     @db_api.placement_context_manager.writer
     def _update_consumers_and_create_allocations(ctx):
